@@ -65,6 +65,8 @@ structure Token where
   deriving DecidableEq, Repr, Inhabited
 
 def Token.zero : Token := ⟨.empty, []⟩
+/-- `EndTk` -/
+def Token.endTk : Token := ⟨.tEnd, []⟩
 def tk (t : TokType) (s : String) : Token := ⟨t, s.toList⟩
 
 /-- Error kinds of the lexer (the harness maps Go error messages to these). -/
@@ -352,6 +354,7 @@ structure LexCore where
 structure LexState extends LexCore where
   stream : Option (List Char) := none
   next : List (List Char) := []
+  finished : Bool := false     -- `Parser.EndInput` was called and no stream was added since (repo fix C13-02)
   deriving DecidableEq, Repr, Inhabited
 
 /-- `NewLexer`. -/
@@ -548,7 +551,7 @@ def LexState.reset (_s : LexState) : LexState :=
   { state := .normal, prevrune := '\x00', tokens := [], buffer := [], prevToken := Token.zero,
     prevPrevToken := Token.zero, preBuiltinRune := '\x00', linenum := 1, priori := 0,
     priorRune := List.replicate 20 '\x00', escDigits := 0, escValue := 0, escByte := false,
-    stream := none, next := [] }
+    stream := none, next := [], finished := false }
 
 /-- `Lexer.InLiteral` (added by the repair). -/
 def inLiteral (s : LexCore) : Bool :=
@@ -567,13 +570,17 @@ def LexState.promote (s : LexState) : Option LexState :=
   | [] => none
   | n :: rest => some { s with stream := some n, next := rest }
 
-/-- `AddNextStream`. -/
+/-- `AddNextStream` (new input: the text is no longer finished). -/
 def LexState.addNextStream (s : LexState) (p : List Char) : LexState :=
-  let s1 := { s with next := s.next ++ [p] }
+  let s1 := { s with next := s.next ++ [p], finished := false }
   match s1.stream with
   | none => (s1.promote).getD s1
   | some [] => (s1.promote).getD s1
   | some (_ :: _) => s1
+
+/-- `Parser.EndInput`: the end of the input is one more stream holding a newline, and the mark
+that nothing will follow (repo fix C13-02; before it only the newline). -/
+def LexState.endInput (s : LexState) : LexState := { s.addNextStream ['\n'] with finished := true }
 
 /-- All runes the lexer still holds, in reading order. -/
 def LexState.pending (s : LexState) : List Char := (s.stream.getD []) ++ s.next.flatten
